@@ -38,7 +38,11 @@ fn process_dec(token: Token) -> Result<Expression, ParserError> {
                 Ok(Expression::DoubleLiteral(u as f64))
             }
         }
-        Err(e) => Err(e.into()),
+        // too big for a LONG: it is a DOUBLE, as long as it is finite
+        Err(e) => match token.to_string().parse::<f64>() {
+            Ok(f) if f.is_finite() => Ok(Expression::DoubleLiteral(f)),
+            _ => Err(e.into()),
+        },
     }
 }
 
